@@ -1,7 +1,7 @@
 (* C05 -- receiving arbitrary bytes either yields messages or fails closed. *)
 From Coq Require Import ZArith List.
 From Coq.Strings Require Import Byte.
-From SV Require Import Base.Bytes Base.Py Msg.Types Msg.Decode Sess.Model Sess.Total.
+From SV Require Import Gen.Sharing Base.Bytes Base.Py Msg.Types Msg.Decode Sess.Model Sess.Total.
 Import ListNotations.
 
 (* for EVERY history of calls that led to the current state, every byte string and every recursion
@@ -37,8 +37,16 @@ Proof. exact parse_loop_benign. Qed.
 Example C05_zero_length_integer : exists s', receive 10 (init Client) [x30; x02; x02; x00] = (s', OProtoErr PUnbind).
 Proof. eexists. vm_compute. reflexivity. Qed.
 
+(* The theorems above are about functions and values; that _session.py (everything a session mutates is reached from the session object) keeps no state
+   between calls and shares none between objects is read off the source by tools/audit.py on every run
+   (Gen/Sharing.v): no memoisation, no module- or class-level container that is written, no mutable default, no
+   attribute written behind a dataclass, no parameter stored without a copy. *)
+Theorem C05_audit_no_state_between_calls : (hidden_state_session = [])%list.
+Proof. exact eq_refl. Qed.
+
 Print Assumptions C05_receive_total.
 Print Assumptions C05_receive_total_invariant.
 Print Assumptions C05_invariant_holds_in_every_reachable_state.
 Print Assumptions C05_fail_closed.
 Print Assumptions C05_parser_needs_no_more_fuel.
+Print Assumptions C05_audit_no_state_between_calls.
